@@ -362,7 +362,9 @@ fn threads<W: Write>(out: &mut W, hi: usize, hist: &Value, out_path: &str) {
     let nops = hist["nops"].as_u64().unwrap_or(60) as usize;
     let seed = hist["seed"].as_u64().unwrap_or(1);
     let stall_ms = hist["stall_ms"].as_u64().unwrap_or(8000);
-    let mut cf = build_file(ver);
+    // an explicit maximum buffer size (not the library's default, which is a tuning choice): the large appends
+    // below fit into it, so each of them is ONE write-back and changes the entry's length once
+    let mut cf = cfb::OpenOptions::new().max_buffer_size(1 << 20).open_with(build_file(ver).into_inner()).unwrap();
     let mut h1 = cf.open_stream("/a/s1").unwrap();
     let mut h2 = cf.open_stream("/a/s2").unwrap();
     let cf = cf; // shared immutably from here on
